@@ -87,9 +87,33 @@ impl core::ops::Add for F64 { type Output = F64; #[verifier::external_body] fn a
 impl core::ops::Sub for F64 { type Output = F64; #[verifier::external_body] fn sub(self, o: F64) -> (r: F64) { F64(self.0 - o.0) } }
 impl core::ops::Mul for F64 { type Output = F64; #[verifier::external_body] fn mul(self, o: F64) -> (r: F64) { F64(self.0 * o.0) } }
 impl core::ops::Div for F64 { type Output = F64; #[verifier::external_body] fn div(self, o: F64) -> (r: F64) { F64(self.0 / o.0) } }
-// operators on references (`c * -1.0` with c: &f64, `*a - b` ...): same meaning as on values
+// operators on references (`c * -1.0` with c: &f64, `1.0 / divisor` with divisor: &f64, ...): same meaning as on values
+impl<'a> AddSpecImpl<F64> for &'a F64 { open spec fn obeys_add_spec() -> bool { true } open spec fn add_req(self, o: F64) -> bool { true } open spec fn add_spec(self, o: F64) -> F64 { f_add(*self, o) } }
+impl<'a> core::ops::Add<F64> for &'a F64 { type Output = F64; #[verifier::external_body] fn add(self, o: F64) -> (r: F64) { F64(self.0 + o.0) } }
+impl<'a> AddSpecImpl<&'a F64> for F64 { open spec fn obeys_add_spec() -> bool { true } open spec fn add_req(self, o: &'a F64) -> bool { true } open spec fn add_spec(self, o: &'a F64) -> F64 { f_add(self, *o) } }
+impl<'a> core::ops::Add<&'a F64> for F64 { type Output = F64; #[verifier::external_body] fn add(self, o: &'a F64) -> (r: F64) { F64(self.0 + o.0) } }
+impl<'a> AddSpecImpl<&'a F64> for &'a F64 { open spec fn obeys_add_spec() -> bool { true } open spec fn add_req(self, o: &'a F64) -> bool { true } open spec fn add_spec(self, o: &'a F64) -> F64 { f_add(*self, *o) } }
+impl<'a> core::ops::Add<&'a F64> for &'a F64 { type Output = F64; #[verifier::external_body] fn add(self, o: &'a F64) -> (r: F64) { F64(self.0 + o.0) } }
+impl<'a> SubSpecImpl<F64> for &'a F64 { open spec fn obeys_sub_spec() -> bool { true } open spec fn sub_req(self, o: F64) -> bool { true } open spec fn sub_spec(self, o: F64) -> F64 { f_sub(*self, o) } }
+impl<'a> core::ops::Sub<F64> for &'a F64 { type Output = F64; #[verifier::external_body] fn sub(self, o: F64) -> (r: F64) { F64(self.0 - o.0) } }
+impl<'a> SubSpecImpl<&'a F64> for F64 { open spec fn obeys_sub_spec() -> bool { true } open spec fn sub_req(self, o: &'a F64) -> bool { true } open spec fn sub_spec(self, o: &'a F64) -> F64 { f_sub(self, *o) } }
+impl<'a> core::ops::Sub<&'a F64> for F64 { type Output = F64; #[verifier::external_body] fn sub(self, o: &'a F64) -> (r: F64) { F64(self.0 - o.0) } }
+impl<'a> SubSpecImpl<&'a F64> for &'a F64 { open spec fn obeys_sub_spec() -> bool { true } open spec fn sub_req(self, o: &'a F64) -> bool { true } open spec fn sub_spec(self, o: &'a F64) -> F64 { f_sub(*self, *o) } }
+impl<'a> core::ops::Sub<&'a F64> for &'a F64 { type Output = F64; #[verifier::external_body] fn sub(self, o: &'a F64) -> (r: F64) { F64(self.0 - o.0) } }
 impl<'a> MulSpecImpl<F64> for &'a F64 { open spec fn obeys_mul_spec() -> bool { true } open spec fn mul_req(self, o: F64) -> bool { true } open spec fn mul_spec(self, o: F64) -> F64 { f_mul(*self, o) } }
 impl<'a> core::ops::Mul<F64> for &'a F64 { type Output = F64; #[verifier::external_body] fn mul(self, o: F64) -> (r: F64) { F64(self.0 * o.0) } }
+impl<'a> MulSpecImpl<&'a F64> for F64 { open spec fn obeys_mul_spec() -> bool { true } open spec fn mul_req(self, o: &'a F64) -> bool { true } open spec fn mul_spec(self, o: &'a F64) -> F64 { f_mul(self, *o) } }
+impl<'a> core::ops::Mul<&'a F64> for F64 { type Output = F64; #[verifier::external_body] fn mul(self, o: &'a F64) -> (r: F64) { F64(self.0 * o.0) } }
+impl<'a> MulSpecImpl<&'a F64> for &'a F64 { open spec fn obeys_mul_spec() -> bool { true } open spec fn mul_req(self, o: &'a F64) -> bool { true } open spec fn mul_spec(self, o: &'a F64) -> F64 { f_mul(*self, *o) } }
+impl<'a> core::ops::Mul<&'a F64> for &'a F64 { type Output = F64; #[verifier::external_body] fn mul(self, o: &'a F64) -> (r: F64) { F64(self.0 * o.0) } }
+impl<'a> DivSpecImpl<F64> for &'a F64 { open spec fn obeys_div_spec() -> bool { true } open spec fn div_req(self, o: F64) -> bool { true } open spec fn div_spec(self, o: F64) -> F64 { f_div(*self, o) } }
+impl<'a> core::ops::Div<F64> for &'a F64 { type Output = F64; #[verifier::external_body] fn div(self, o: F64) -> (r: F64) { F64(self.0 / o.0) } }
+impl<'a> DivSpecImpl<&'a F64> for F64 { open spec fn obeys_div_spec() -> bool { true } open spec fn div_req(self, o: &'a F64) -> bool { true } open spec fn div_spec(self, o: &'a F64) -> F64 { f_div(self, *o) } }
+impl<'a> core::ops::Div<&'a F64> for F64 { type Output = F64; #[verifier::external_body] fn div(self, o: &'a F64) -> (r: F64) { F64(self.0 / o.0) } }
+impl<'a> DivSpecImpl<&'a F64> for &'a F64 { open spec fn obeys_div_spec() -> bool { true } open spec fn div_req(self, o: &'a F64) -> bool { true } open spec fn div_spec(self, o: &'a F64) -> F64 { f_div(*self, *o) } }
+impl<'a> core::ops::Div<&'a F64> for &'a F64 { type Output = F64; #[verifier::external_body] fn div(self, o: &'a F64) -> (r: F64) { F64(self.0 / o.0) } }
+impl<'a> NegSpecImpl for &'a F64 { open spec fn obeys_neg_spec() -> bool { true } open spec fn neg_req(self) -> bool { true } open spec fn neg_spec(self) -> F64 { f_neg(*self) } }
+impl<'a> core::ops::Neg for &'a F64 { type Output = F64; #[verifier::external_body] fn neg(self) -> (r: F64) { F64(-self.0) } }
 impl core::cmp::PartialEq for F64 { #[verifier::external_body] fn eq(&self, o: &F64) -> (r: bool) ensures r == ext_eq(fv(*self), fv(*o)) { self.0 == o.0 } }
 impl core::cmp::PartialOrd for F64 {
     #[verifier::external_body] fn partial_cmp(&self, o: &F64) -> (r: Option<core::cmp::Ordering>) { self.0.partial_cmp(&o.0) }
